@@ -1,5 +1,6 @@
 """C05: if renders one branch; range once per element. spec: JetExec.tla (DoIf, DoRange, RangeStep), Gen_C05.tla."""
 from execfam import *
+import os
 
 def run(rep, tier, seed):
     wd = spec_scratch()
@@ -7,12 +8,32 @@ def run(rep, tier, seed):
     rep.rule = ("programs: single if over 27 condition values of every Go kind x else/no else; else-if chains of 3 with all truth "
                 "assignments (with and without if-let); range over 11 subject kinds x lengths 0..2 (quick) / 0..3 (thorough) x "
                 "zero/one/two-variable forms x {:=, =} x '_' in either slot x else/no else; nested ranges over every pair of "
-                "index-providing kinds; loop variables captured into outer variables; all non-trivial; distinct by program. Maps with >1 entry are compared as multisets")
+                "index-providing kinds; loop variables captured into outer variables; conditions that are operator trees (JetExpr, <=2 operators) in if and else-if; all non-trivial; distinct by program. Maps with >1 entry are compared as multisets")
     gen_and_replay(rep, wd, exe, "Gen_C05.tla", "C05", {"MaxLen": 2 if tier == "quick" else 3}, {})
     # what a range binds is that iteration's value: copied out of the loop it stays what it was (loop-variable capture
     # for 8 ranger kinds x 3 forms x {:=, =}, two-entry maps in both orders - the families of Gen_C07)
     gen_and_replay(rep, wd, exe, "Gen_C07.tla", "C05_capture", {"Depth": 0}, {"Kinds": "ScopeKinds"}, trace_execs=0)
+    # conditions that are expressions: every tree of up to two operators (13 binary operators, not, ?:) over truthy and
+    # falsy operands of every kind and recording probes (JetExpr) as the condition of an if and of an else-if
+    import json, os
+    vec = os.path.join(wd, "cond.ndjson")
+    with open(vec, "w") as sink:
+        r = run_tlc(wd, "MC_Expr.tla", "MC_Expr_cond.cfg", workers=8, heap="4g", timeout=1200, keep_vecs=False, vec_sink=sink, deque=True)
+    need_ok(r, "MC_Expr_cond")
+    rep.add_tlc(r, "MC_Expr_cond")
+    replay_vectors(rep, exe, "replay-C05cond", vec, shards=4)
     rep.exhaustive = True
 
 def replay(path):
+    import json
+    case = json.load(open(path))["case"]
+    if case.get("replay_cmd") == "replay-C05cond":
+        exe = build_harness()
+        wd = scratch()
+        v = os.path.join(wd, "v.ndjson")
+        open(v, "w").write(json.dumps(case["vector"]) + "\n")
+        run_harness(exe, ["replay-C05cond", v, v + ".res"])
+        r = json.loads(open(v + ".res").readline())
+        print(json.dumps(r, indent=1)[:4000])
+        return 0 if r["ok"] else 1
     return replay_one(path)
